@@ -1,0 +1,17 @@
+//go:build verif
+
+// Machine-checked contracts for package tokencache (comment-only; see /verif/DESIGN.md).
+
+package tokencache
+
+//@ func (*Cache).GetKey
+//@   property C15
+//@   ghost fetched bool = false
+//@   ghost fetchedKey token.Key = nil
+//@   ghost idMatch bool = false
+//@   on call invoke github.com/sassoftware/relic/v8/token.Token.GetKey(_, _, _) ret (k, e): fetched = true; fetchedKey = k
+//@   on call bytes.Equal(a, b) ret (r): idMatch = r && sameslice(a, wantKeyID)
+//@   ensures @pinned_request_not_served_from_mismatching_cache ret1 == nil && !fetched ==> len(wantKeyID) == 0 || idMatch
+//@   ensures @fetched_key_returned ret1 == nil && fetched ==> ret0 == fetchedKey
+//@   ensures @pinned_request_never_populates len(wantKeyID) != 0 ==> \
+//@        forall(k, inmap(c.keys, k) == old(inmap(c.keys, k)) && c.keys[k].key == old(c.keys[k].key))
